@@ -14,8 +14,12 @@
 EXTENDS Integers, Sequences, FiniteSets, TLC, Json, IOUtils
 Obs == ndJsonDeserialize(IOEnv.TRACE_FILE)
 Comps == <<"err", "pw", "regs", "imem", "ram", "lcd", "kbd", "timers", "irq", "cnt">>
+\* components that are records are compared field by field, and the differing field is named ("kbd.kil")
+SubDiff(c, x, y) == IF c \in {"kbd", "timers", "irq", "cnt", "regs"} /\ DOMAIN x = DOMAIN y
+                    THEN LET fs == {f \in DOMAIN x : x[f] # y[f]} IN c \o "." \o (CHOOSE f \in fs : TRUE)
+                    ELSE c
 FirstDiff(a, b) == LET ds == {i \in 1..Len(Comps) : a[Comps[i]] # b[Comps[i]]} IN
-                   IF ds = {} THEN "" ELSE Comps[CHOOSE i \in ds : \A j \in ds : i <= j]
+                   IF ds = {} THEN "" ELSE LET c == Comps[CHOOSE i \in ds : \A j \in ds : i <= j] IN SubDiff(c, a[c], b[c])
 Verdict(r) ==
   IF r.loaderr = 1 THEN <<"Loads", 0, "">>
   ELSE IF Len(r.orig) # Len(r.rest) THEN <<"SameFuture", 0, "length">>
